@@ -95,7 +95,7 @@ var checkSpecs = map[string]CheckSpec{
 		{Pkg: "origins", Entry: "zzH_C13_D", Reach: []string{"accepted", "rejected"}},
 	}, Bounds: map[string]string{
 		"quick":    "S: every byte string of <=12 bytes through ParsePattern, IDNA/netip stubbed (nondeterministic: accept => documented syntax; optimistic: documented syntax => accept); L: concrete grid of scheme lengths {1,63,64,65,66} x domain lengths {1,63,250..255} x trailing dot x wildcard x label of 63/64 x 6 ports with the real IDNA profile, incl. self-match through Parse+Tree (enumeration, no solver); D: 44 documented examples and one atom per documented defect, concrete",
-		"thorough": "S: <=15 bytes",
+		"thorough": "S: <=14 bytes",
 	}, Outside: "which labels IDNA accepts and which IP literals are canonical (delegated to x/net/idna and net/netip; only the concrete atoms of L and D exercise them); strings longer than the S bound other than the L grid; the grey zones the property names (https+IP, `_`, hyphens in positions 3-4) and 251-byte wildcard base plus trailing dot",
 		Explain: "S compares ParsePattern with a reference grammar written from the documentation, for all strings within the bound; rejections must be *UnacceptableOriginPatternError naming the input"},
 	"C15": {ID: "C15", Harnesses: []HarnessSpec{
@@ -120,7 +120,7 @@ var checkSpecs = map[string]CheckSpec{
 		{Pkg: "cfgerrors", Entry: "zzH_C19_unit", Reach: []string{"exhausted"}, Secondary: true},
 	}, Bounds: map[string]string{
 		"quick":    "every indexing, slicing, dereference, type assertion, division and explicit panic executed on any explored path is an obligation. serve: method / PNA / steps / lists scenarios as they are (incl. empty ACRM, ACRPN and ACRH value lists); dispatch / header / origin scenarios with a nil header map, nil and empty value lists, odd pre-set writer state, and an Origin value of any length from 401 bytes to 1 MiB; config: junk and symbolic atoms (<=5-byte symbolic origin pattern with IDNA/netip/PSL answering arbitrarily, <=3-byte symbolic names), nil and empty lists, symbolic 64-bit integers, through NewMiddleware, Reconfigure, Config, cfgerrors.All (incl. All(nil)); parse: origins.Parse + Tree.Contains on <=14 symbolic bytes and on any length up to 1 MiB; plus the unit harnesses of C13 (ParsePattern, <=12 bytes), C14 (headers.Check) and C19 (All)",
-		"thorough": "origins.Parse <=17 bytes, ParsePattern <=15 bytes, thorough shapes of C14/C19",
+		"thorough": "origins.Parse <=17 bytes, ParsePattern <=14 bytes, thorough shapes of C14/C19",
 	}, Outside: "inputs longer than the bounds except through the length-cap path; ACRH field lines longer than C14's bounds; panics inside IDNA/netip/PSL (run natively on concrete hosts, stubbed on symbolic ones); stack exhaustion; the other properties' harnesses also treat any panic as a violation of their own property",
 		Explain: "panic-freedom is a global obligation of the engine; these harnesses drive the exported surface with inputs not constrained by validity assumptions"},
 	"C18": {ID: "C18", Harnesses: []HarnessSpec{
